@@ -188,7 +188,7 @@ class M(Model):
         return {"state": st, "reward": reward, "last": last}
 
     # ---------------------------------------------------------------------------------------- C10
-    def _exact_cover(self, blocks, budget=None):
+    def _exact_cover(self, blocks, budget=None, occ0=0, used0=None):
         """Bounded backtracking over the placements the ACTION SPACE can express (block, rotation,
         top-left corner of the rotated (3, 3) array at row <= R-3, col <= C-3): always fill the first
         empty cell (row-major) with an unused block one of whose placements has its first cell there.
@@ -220,7 +220,7 @@ class M(Model):
                         low = (m & -m).bit_length() - 1
                         bucket[low].append((i, m, (i, k, r, c)))
         full = (1 << (R * C)) - 1
-        used = [False] * n
+        used = [False] * n if used0 is None else [bool(u) for u in used0]
         nodes = [0]
         sol = []
 
@@ -250,7 +250,7 @@ class M(Model):
                     return None
             return False
 
-        res = rec(0)
+        res = rec(int(occ0))
         STATS["cover_nodes"] += nodes[0]
         return (res, list(sol)) if res else (res, None)
 
@@ -258,6 +258,39 @@ class M(Model):
         """Actions (block, rotation, row, col) that tile the grid from the reset state, or None."""
         res, sol = self._exact_cover(np.asarray(s0.blocks).astype(np.int64))
         return [np.asarray(a, np.int32) for a in sol] if res else None
+
+    def solve_action(self, s, r=0):
+        """Next action of an exact cover of the *remaining* empty cells by the unplaced blocks,
+        computed from the current state (cached along the plan); None when there is none (any more)
+        or the search budget is exhausted."""
+        blocks = np.asarray(s.blocks).astype(np.int64)
+        grid = np.asarray(s.grid)
+        placed = np.asarray(s.placed_blocks).astype(bool)
+        if blocks.shape != (self.N, 3, 3) or grid.shape != (self.R, self.C) or placed.all():
+            return None
+        if not hasattr(self, "_plans"):
+            self._plans = {}
+        occ = 0
+        for f in np.flatnonzero(grid.reshape(-1) != 0).tolist():
+            occ |= 1 << f
+        key = (blocks.tobytes(), occ, placed.tobytes())
+        if key not in self._plans:
+            if len(self._plans) > 4096:
+                self._plans.clear()
+            res, sol = self._exact_cover(blocks, budget=COVER_BUDGET // 5, occ0=occ, used0=placed)
+            self._plans[key] = sol if res else None
+            if res:                       # remember the continuation for the states along the plan
+                o, u = occ, placed.copy()
+                for j, (i, k, rr, cc) in enumerate(sol[:-1]):
+                    for dr, dc in np.argwhere(rot(blocks[i], k) != 0).tolist():
+                        o |= 1 << ((rr + dr) * self.C + (cc + dc))
+                    u = u.copy()
+                    u[i] = True
+                    self._plans.setdefault((blocks.tobytes(), o, u.tobytes()), sol[j + 1:])
+        plan = self._plans[key]
+        if not plan:
+            return None
+        return np.asarray(plan[0], np.int32)
 
     def validate_instance(self, s0):
         out = []
